@@ -105,10 +105,18 @@ def parse_table(out):
     if w < 1:
         return None
     names = []
+    total = len(lines[1])       # the divider is as wide as the table
+    types = {l[w:].rstrip() for l in lines[2:] if l and len(l) <= total} | {"CDDA Track"}
     for l in lines[2:]:
         if l == "":
             continue
-        names.append(l[:w - 1].rstrip())
+        if len(l) <= total:
+            names.append(l[:w - 1].rstrip())
+            continue
+        # a cell wider than its column (the column width is capped at 255): the name runs on, the type follows one blank later
+        body = l.rstrip()
+        t = next((t for t in sorted(types, key=len, reverse=True) if t and body.endswith(" " + t)), None)
+        names.append(body[:len(body) - len(t) - 1] if t else body)
     return names
 
 
@@ -177,7 +185,9 @@ class Explorer:
                     return
         else:
             first = out.split("\n", 1)[0]
-            if not first.startswith(tokens[-1].strip()) and not first.lstrip().startswith(tokens[-1].strip()):
+            # (the heading of an item's own page abbreviates long names: its first 40 characters are compared; which item it
+            # is follows from the position-coded marker below)
+            if not first.startswith(tokens[-1].strip()[:40]) and not first.lstrip().startswith(tokens[-1].strip()[:40]):
                 return self.fail("wrong-item-header", {"path": path, "observed": first[:100]})
             if node["marker"] and node["marker"] not in out:
                 return self.fail("wrong-item", {"path": path, "expected_marker": node["marker"], "observed": out[:300]})
@@ -382,7 +392,7 @@ class Check(CheckBase):
     level = "exploration"
     title = "Every item `ls` shows can be addressed by the names shown; other paths say so"
     rule = ("trees whose names come from near-collision / hostile alphabets at every level (AKAI: 2 partitions x volume-name "
-            "pairs x file-name pairs, and volumes holding a sample and a PROGRAM of the same name, or files of kinds that are not listed (DRUM, QL, EFFECT); Roland: volume/performance/sample name pairs; CDDA: title pairs and triples, titles of 19..60 characters in every order of widths, single-entry directories); for every "
+            "pairs x file-name pairs, and volumes holding a sample and a PROGRAM of the same name, or files of kinds that are not listed (DRUM, QL, EFFECT); Roland: volume/performance/sample name pairs; CDDA: title pairs and triples, titles of 19..60 characters in every order of widths, titles of 255..302 characters (wider than the widest column), single-entry directories); for every "
             "node with a non-blank printed name: path of printed names x separator {/,\\,\\\\} x blanks {none, around every "
             "token, around the whole path incl. behind a trailing separator} x trailing separator {no,yes} must print what the canonical path prints, the right item (position-coded "
             "marker per leaf) and sibling names pairwise distinct; AKAI lower-case / colon-less forms may resolve to the right "
@@ -411,6 +421,11 @@ class Check(CheckBase):
             cases.append({"fmt": "akai", "vols": ["VOL", "VOL B"], "files": files})
         # names wider than the listing's default column (20 characters), in every order of widths: the printed table is the
         # only thing a user can read the names from
+        # titles wider than the widest column a listing grows to (255): printed in full, addressable in full -- also two that
+        # agree in their first 255 / 300 characters
+        cases.append({"fmt": "cdda", "titles": ["w" * 256, "w" * 255, "x" * 300 + "a", "x" * 300 + "b", "short"]})
+        cases.append({"fmt": "cdda", "titles": ["y" * 255 + " z", "y" * 255 + " zz"]})
+
         def wide(n, tag):
             return (tag + "x" * 60)[:n - 2] + "%02d" % n
         for widths in ([30, 25], [25, 30], [21, 40, 22], [40, 21], [20, 21], [21, 20], [19, 45, 21, 33], [33, 21, 45, 19], [60, 22]):
